@@ -69,13 +69,15 @@ def set_updates(fa):
     kind 'elem' (s.add(x), s |= {x}, s.update({x}) — operand x) or 'union' (s |= t, s.update(t) — operand t)."""
     out = []
     for c in fa.calls():
-        if not isinstance(c.func, ast.Attribute) or len(c.args) != 1 or c.keywords or not fa.nodes(c):
+        if not isinstance(c.func, ast.Attribute) or not c.args or c.keywords or not fa.nodes(c) or any(isinstance(a, ast.Starred) for a in c.args):
             continue
-        if c.func.attr == "add":
+        if c.func.attr == "add" and len(c.args) == 1:
             out.append((fa.nodes(c), c.func.value, "elem", c.args[0]))
         elif c.func.attr == "update":
-            x = _single(c.args[0])
-            out.append((fa.nodes(c), c.func.value, "elem" if x is not None else "union", x if x is not None else c.args[0]))
+            # s.update(a, b) is s.update(a); s.update(b)
+            for a in c.args:
+                x = _single(a)
+                out.append((fa.nodes(c), c.func.value, "elem" if x is not None else "union", x if x is not None else a))
     for s in fa.stmts(ast.AugAssign):
         if isinstance(s.op, ast.BitOr) and fa.nodes(s) and not rebinds_local(fa, s):
             x = _single(s.value)
